@@ -58,6 +58,9 @@ def run_prop(prop, tier, seed, replay):
     t = qv.Timer()
     rng = qv.Rng(seed)
     gate = {'ok': True, 'obligations': 0, 'discharged': 0, 'failed': None, 'axioms': [], 'checker_cmd': '', 'gen': {}}
+    if prop == 'C04':
+        # soundness of the checker that judges the crash images
+        gate = common.proof_gate('C04', ['Spec/Entries.v', 'Spec/Image.v', 'Proofs/SpecProps.v', 'Props/C04.v'])
     rc, out = qv.harness_build()
     if rc != 0:
         print(out[-3000:])
